@@ -621,6 +621,14 @@ func (s *BaseNodeService) reinitDKG(message storage.Message) error {
 		}
 	}
 
+	// nothing has been stored for the round unless the log opened it: refuse
+	// the message here, before the reinit operation is put into the pool
+	if opened, err := s.fsmService.IsExist(req.DKGID); err != nil {
+		return err
+	} else if !opened {
+		return fmt.Errorf("reinit message does not open the round %s it reinitialises", req.DKGID)
+	}
+
 	operationsBz, err := json.Marshal(operations)
 	if err != nil {
 		return fmt.Errorf("failed to marshall operations")
